@@ -8,9 +8,11 @@ for d in sorted(glob.glob(os.path.join(V, "seeded", "*", "result.json"))):
     v = "; ".join("%s: %s" % (k, x["verdict"]) for k, x in r.get("checks", {}).items())
     if "after_strengthening" in r: v += " → after strengthening: quick caught"
     if "history" in r: v += " (first run missed; after generator widening: quick caught)"
+    if r.get("first_run"): v = "first run: %s → now: %s" % (r["first_run"], v or "not run")
+    if r.get("kept") is False: v = "not kept: " + (r.get("first_run") or "not confirmed")
     if "cross_check" in r: v += " (violates another property, whose quick tier catches it: see result.json)"
     rows.append("| `%s` | %s | %s |" % (name, (r.get("summary") or "")[:110].replace("|", "/"), v))
-tab = "<!-- SEEDED-TABLE-BEGIN -->\n%d seeded changes, all confirmed (demo passes unchanged / fails with the change; builds; existing suite passes).\n\n| seeded change | where / what (abridged) | result |\n|---|---|---|\n%s\n<!-- SEEDED-TABLE-END -->" % (len(rows), "\n".join(rows))
+tab = "<!-- SEEDED-TABLE-BEGIN -->\n%d seeded changes; all confirmed (demo passes unchanged / fails with the change; builds; existing suite passes) except the one marked not kept.\n\n| seeded change | where / what (abridged) | result |\n|---|---|---|\n%s\n<!-- SEEDED-TABLE-END -->" % (len(rows), "\n".join(rows))
 p = os.path.join(V, "DESIGN.md"); s = open(p).read()
 if "<!-- SEEDED-TABLE-BEGIN -->" in s:
     s = re.sub(r"<!-- SEEDED-TABLE-BEGIN -->.*?<!-- SEEDED-TABLE-END -->", lambda m: tab, s, flags=re.S)
